@@ -9,7 +9,7 @@
                mcid being the number Page::begin_marked_content* returned on that page (0, 1, ... in call order)
 
    What a conforming reader finds:
-     - the catalog names a /StructTreeRoot whose /K is the root element, and /MarkInfo /Marked true
+     - the catalog names a /StructTreeRoot whose /K is the root element
      - walking /K from there gives the authored tree: each element's /S is the authored type, its /P is the object
        that lists it, its element kids are the authored children in order, its marked-content kids (integers or
        /MCR dictionaries, 14.7.4.2) are exactly the authored <<page, mcid>> pairs, its text attributes decode to
@@ -95,10 +95,9 @@ McidsInContent(x) ==
   IN [y \in 1..Len(bdc) |-> IntTok(Get(bdc[y].args[2], KT_MCID))]
 
 TaggedProblems ==
-  IF STags = <<>> THEN (IF STRootRef.t = "none" THEN {} ELSE {"a structure tree nobody authored"})
+  IF STags = <<>> THEN {}
   ELSE
     (IF STRoot.t = "dict" /\ TypeIs(STRoot, NT_StructTreeRoot) /\ STRootRef.t = "ref" THEN {} ELSE {"catalog has no /StructTreeRoot"})
-    \cup (IF Get(Deref(Get(Catalog, KT_MarkInfo)), KT_Marked) = [t |-> "bool", v |-> TRUE] THEN {} ELSE {"/MarkInfo /Marked is not true"})
     \cup (IF STRoot.t = "dict" /\ STRootRef.t = "ref" /\ Len(ElemKids(STRoot)) = 1 /\ ElemOK(ElemKids(STRoot)[1], 1, STRootRef.n)
           THEN {} ELSE {"structure hierarchy differs from the authored tree"})
     \cup (IF \A x, y \in TaggedPages : x # y => StructParentsOf(x) # StructParentsOf(y) THEN {} ELSE {"two pages share a /StructParents key"})
